@@ -1,6 +1,10 @@
 import GudhiVerif.Cubical
 import GudhiVerif.Counter
 import GudhiVerif.Model.Cubical
+import GudhiVerif.CubBridge
+import GudhiVerif.CubOrder
+import GudhiVerif.CubValue
+import GudhiVerif.CubPeriodic
 /-! # C13 — cubical complexes are valid filtered cell complexes with correct incidences
 
 Proved: `CubicalProto.bd_bd` (∂∂ = 0 for the graded-Leibniz boundary on counter vectors, every dimension),
@@ -8,10 +12,26 @@ Proved: `CubicalProto.bd_bd` (∂∂ = 0 for the graded-Leibniz boundary on coun
 (c−e, c+e) or (c+e, c−e) by the parity of m — with signs alternating along the enumeration *is* that boundary),
 `CounterProto.pos_counter` / `CounterProto.counter_pos` (flat index ↔ counter bijection).
 
-**Partial** (`C13_partial`): the executable model on flat positions (`CubModel.Shape.boundary/coboundary/valueTop/
-valueVert/order`, periodic wrap included) that `gvdriver C13` runs against both real classes is not yet proved equal to
-the counter-level `bdEnum` (the correspondence and the harness-side `∂∂ = 0` evaluation on the real output cover it);
-the lower-star values are stated as min over top cofaces / max over vertices, which is the property's own wording. -/
+`CubBridge.boundary_eq_enum` — for a bitmap without periodic directions the list returned by the executable flat-position
+model `CubModel.Shape.boundary` (the function `gvdriver C13` runs against `get_boundary_of_a_cell`) *is* the image of that
+counter-level enumeration under `c ↦ Σ cᵢ·multᵢ`; `CubBridge.enc_valid` / `enc_inj` (positions ↔ counters with digits below
+the radices, on the `Shape` itself); `CubBridge.boundary_in_range`, `CubBridge.boundary_dim` (every listed face is a position
+of the bitmap, of dimension one less); `CubBridge.flat_bd_bd` — ∂∂ = 0 on flat positions, with the signs the model's
+`cells` carry (alternating along each list).
+`CubBridge.boundary_psi` — a bitmap with periodic directions is the quotient of the one without (last vertex layer = first),
+and `Shape.boundary` commutes with the quotient map on positions, for both pair orientations (= both C++ classes);
+`CubBridge.boundary_true_swap` — the periodic class lists every pair in the other order; hence
+**`CubBridge.flat_bd_bd_all`** — ∂∂ = 0 on flat positions for every shape with positive radices, every subset of periodic
+directions, both classes, every position.
+`CubBridge.boundary_coboundary` — boundary and coboundary of the model are converse relations (no periodic direction).
+`CubBridge.valueTop_mono`, `CubBridge.valueVert_mono` — both value impositions (min over the top cells containing the cell,
+max over its vertices) are lower-star; `CubBridge.order_perm`, `order_nondecreasing`, `order_faces_first_top/_vert` — the
+filtration order of the model lists every position once, values never decrease, every face precedes the cell.
+
+**Partial** (`C13_partial`): coboundary, value impositions and faces-first order *with periodic directions* are tied to the
+code by the correspondence only (and by the harness evaluating ∂∂ = 0 and boundary/coboundary duality on the real output);
+that "top cells containing the cell" / "vertices of the cell" are `topDigits` / `vertDigits` is the geometric reading of the
+model, stated in the property's own words. -/
 namespace C13
 open CubModel
 
